@@ -59,21 +59,28 @@ MarkerPrefix(b) ==   \* b starts with `{' digits [`+'] `}'
 
 FirstDQ(b) == LET S == {i \in 1..Len(b) : b[i] = DQ} IN IF S = {} THEN 0 ELSE Min(S)
 
-\* what the implementation makes of one listing line: [drop, name, active, devs]
+\* what the implementation makes of one listing line under the enabled deviations: [drop, name, active, devs]
+\* (each deviation is the behaviour of one historical defect; disabled = the reference reading of that aspect)
 ImplLine(line) ==
   LET it == line[1]
       act == IsActive(line)
+      On(d) == d \in EnabledDevs
+      Plain == [drop |-> FALSE, name |-> it.v, active |-> act, devs |-> {}]
   IN IF it.e = "l" THEN
-        IF MarkerPrefix(it.v) THEN [drop |-> TRUE, name |-> <<>>, active |-> FALSE, devs |-> {"Dev_ListNameLooksLikeLiteral"}]
-        ELSE IF act THEN [drop |-> FALSE, name |-> it.v \o <<SP, 65, 67, 84, 73, 86, 69>>, active |-> FALSE,
-                          devs |-> {"Dev_ListLiteralActive"}]
-        ELSE [drop |-> FALSE, name |-> it.v, active |-> FALSE, devs |-> {}]
-     ELSE LET raw == Esc(it.v)
+        IF On("Dev_ListNameLooksLikeLiteral") /\ MarkerPrefix(it.v)
+        THEN [drop |-> TRUE, name |-> <<>>, active |-> FALSE, devs |-> {"Dev_ListNameLooksLikeLiteral"}]
+        ELSE IF On("Dev_ListLiteralActive") /\ act
+        THEN [drop |-> FALSE, name |-> it.v \o <<SP, 65, 67, 84, 73, 86, 69>>, active |-> FALSE,
+              devs |-> {"Dev_ListLiteralActive"}]
+        ELSE Plain
+     ELSE IF On("Dev_ListQuotedEscapes") THEN
+          LET raw == Esc(it.v)
               q == FirstDQ(raw)
           IN IF q > 1 THEN   \* an escaped quote inside: the name stops at it, ACTIVE is not seen
                 [drop |-> FALSE, name |-> SubSeq(raw, 1, q - 1), active |-> FALSE, devs |-> {"Dev_ListQuotedEscapes"}]
              ELSE [drop |-> FALSE, name |-> raw, active |-> act /\ raw # <<>>,
                    devs |-> IF raw # it.v THEN {"Dev_ListQuotedEscapes"} ELSE {}]
+     ELSE Plain
 
 ImplList(r) ==
   LET L == [i \in 1..Len(r.lines) |-> ImplLine(r.lines[i])]
